@@ -272,3 +272,33 @@ def import_reason_models():
                     nc = Namespace('nc', (File(None, tuple(sorted(imports)), tuple(sorted(defs, key=mm_def_key))),))
                     out.append((Model((nb, nc, nx, ny)), ('import-reasons', '+'.join(sub) or 'unused', 'via-alias' if via else 'direct', 'nx-imported' if import_nx else 'nx-not-imported')))
     return out
+
+
+def deep_inheritance_models():
+    """Inheritance chains of four structs (and three unions) in which every level either adds nothing or adds a required and an
+    optional field - all sixteen patterns, so that field-less middle levels and fields that exist only on a grandparent occur -
+    inside one namespace and split over two (the two upper levels imported)."""
+    import itertools
+    from .model import (Model, Namespace, File, Alias, R, N, L, P, VOID, mkfield, mktag, mkstruct, mkunion, mkroute)
+    I32, STR = P('Int32', ()), P('String', ())
+    out = []
+    for pattern in itertools.product((False, True), repeat=4):
+        for split in (False, True):
+            upper_ns = 'nb' if split else None
+            defs_na, defs_nb = [], []
+            for lvl, has in enumerate(pattern):
+                fields = [mkfield('r%d' % lvl, I32), mkfield('o%d' % lvl, STR, 'd%d' % lvl)] if has else []
+                home = defs_nb if (split and lvl < 2) else defs_na
+                parent = None
+                if lvl > 0:
+                    parent = R(upper_ns if (split and lvl == 2) else None, 'Lv%d' % (lvl - 1))
+                home.append(mkstruct('Lv%d' % lvl, parent=parent, fields=fields, doc=None if fields else 'level %d adds nothing' % lvl))
+            defs_na += [mkstruct('Uses', fields=[mkfield('mid', N(R(None, 'Lv2'))), mkfield('leafs', L(R(None, 'Lv3'), None, None))]),
+                        mkunion('Ua', tags=[mktag('a0'), mktag('a1', R(None, 'Lv3'))]),
+                        mkunion('Ub', parent=R(None, 'Ua'), tags=[mktag('b0', I32)]),
+                        mkunion('Uc', parent=R(None, 'Ub'), tags=[mktag('c0'), mktag('c1', N(R(None, 'Lv2')))]),
+                        mkroute('rleaf', 1, R(None, 'Lv3'), R(None, 'Uc'), R(None, 'Lv2'))]
+            na = Namespace('na', (File(None, ('nb',) if split else (), tuple(sorted(defs_na, key=mm_def_key))),))
+            nss = (na, Namespace('nb', (File(None, (), tuple(sorted(defs_nb, key=mm_def_key))),))) if split else (na,)
+            out.append((Model(nss), ('deep-inheritance', ''.join('F' if x else '-' for x in pattern), 'two-namespaces' if split else 'one-namespace')))
+    return out
